@@ -81,7 +81,7 @@ def run(ck):
         lines += ["norm " + hx(a), "pref " + hx(a), "svcopy " + hx(a)]
         for b in paths: lines += ["join %s %s" % (hx(a), hx(b)), "rel %s %s" % (hx(a), hx(b))]
     for s in ["", "$A", "x$A/y~", "~/a:$A$EMPTY$NOPE", "$A" * 9]: lines.append("expand " + hx(s))
-    lines += ["canon " + hx("."), "canon " + hx("nope"), "curpath", "tmppath", "mktemp " + hx("zixtmpXXXXXX"), "mkdirs " + hx("m/n/o"), "mkdirs " + hx("p/./q/../r/"), "ring 1", "ring 1000", "ringbad 0", "ringbad 80000001", "ringbad ffffffff"]
+    lines += ["canon " + hx("."), "canon " + hx("nope"), "curpath", "tmppath", "mktemp " + hx("zixtmpXXXXXX"), "mktemp " + hx("no-pattern-here"), "mktemp " + hx("nodir/zixtmpXXXXXX"), "mkdirs " + hx("m/n/o"), "mkdirs " + hx("p/./q/../r/"), "ring 1", "ring 1000", "ringbad 0", "ringbad 80000001", "ringbad ffffffff"]
     sp = ck.write_script("c08.script", lines)
     rc, out, err = ck.run_impl(exe, sp, [scratch])
     ck.cov["evaluations"] += len(lines)
